@@ -48,10 +48,13 @@ Theorem C02_reuse_header : forall prev buf,
 Proof. exact header_unmarshal_reuse. Qed.
 Print Assumptions C02_reuse_header.
 
-(* non-vacuity: a hostile input that is accepted - a two-byte element running past the declared
-   block into the payload region, with RTP padding *)
+(* non-vacuity: an accepted input - a two-byte element that ends flush with its block, nothing but
+   RTP padding behind it; and a hostile one that is rejected - the same element running past the
+   declared block into the payload region (accepted before fix D23) *)
 Example C02_nonvacuous :
-  exists r, packet_unmarshal_into empty_packet
-              [176; 96; 0; 1; 0; 0; 0; 2; 0; 0; 0; 3; 16; 0; 0; 1; 7; 5; 1; 2; 3; 4; 5; 9; 2] = Ok r
-            /\ pr_n r = 23 /\ payload (pr_packet r) = [] /\ padding_size (pr_packet r) = 2.
-Proof. eexists. split; [vm_compute; reflexivity|]. repeat split. Qed.
+  (exists r, packet_unmarshal_into empty_packet
+               [176; 96; 0; 1; 0; 0; 0; 2; 0; 0; 0; 3; 16; 0; 0; 2; 0; 7; 5; 1; 2; 3; 4; 5; 9; 2] = Ok r
+             /\ pr_n r = 24 /\ payload (pr_packet r) = [] /\ padding_size (pr_packet r) = 2) /\
+  packet_unmarshal_into empty_packet
+    [176; 96; 0; 1; 0; 0; 0; 2; 0; 0; 0; 3; 16; 0; 0; 1; 7; 5; 1; 2; 3; 4; 5; 9; 2] = Err EShort.
+Proof. split; [eexists; split; [vm_compute; reflexivity|]; repeat split|vm_compute; reflexivity]. Qed.
